@@ -161,6 +161,9 @@ def window_when_(
                 window.on_completed()
                 window = Subject()
                 observer.on_next(add_ref(window, r))
+                if d.is_disposed:
+                    return
+
                 create_window_on_completed()
 
             m1 = SingleAssignmentDisposable()
